@@ -134,7 +134,7 @@ class C15(Engine):
 		'pairs that were actually restored from a stored file. Plus an enumeration pass: every stored tree truncated at stride/boundary offsets must fail to load')
 	quick_runs = 36
 	thorough_runs = 900
-	quick_budget_s = 100.0
+	quick_budget_s = 90.0
 	thorough_budget_s = 1500.0
 	components_real = ['Serialization.dumps/loads', 'EntryStored.save/load', 'EntryOfLark', 'CachedProxy', 'SyntaxParserOfLark', 'ASTFinder', 'Nodes/NodeResolver', 'ErrorRender.Quotation', 'Runner pipeline around them']
 	components_stubbed = Engine.components_stubbed + ['builtins.open / os.unlink interposed (trace only in this check)']
